@@ -68,4 +68,19 @@ PLAN["C18"] = dict(
     quick=[("time_tree4", dict(cap=700)), ("time_lc5", dict(cap=500)), ("time_att4", dict(cap=500))],
     thorough=[("time_tree4", dict(cap=2700)), ("time_lc5", dict(cap=4000)), ("time_att4", dict(cap=2200))],
 )
+PLAN["C13"] = dict(
+    quick=["poll_fut_c", "poll_fut_d", "poll_eop", "poll_fut2_c"],
+    thorough=["poll_fut_c", "poll_fut_d", "poll_eop", "poll_fut2_c", "poll_fut6_c"],
+    vacuity=[("poll_fut_c", ["FixInSpan"])],
+)
+PLAN["C14"] = dict(
+    quick=["poll_str_c", "poll_snk_c", "poll_ss_d"],
+    thorough=["poll_str_c", "poll_snk_c", "poll_ss_d", "poll_ss6_c"],
+    vacuity=[("poll_str_c", ["FixInSpan"])],
+)
+PLAN["C16"] = dict(
+    quick=["notready4", "disabled4", ("hostile4", dict(cap=800))],
+    thorough=["notready4", "disabled4", "hostile4", "hostile5"],
+    needs_off=True,
+)
 SIDE = {}
